@@ -155,7 +155,9 @@ def prepare (values : List Rat) (weights : Option (List Rat)) (clipMin clipMax d
     | none => vw1
 
 /-- `compute_keypoints(values, num_keypoints, keypoints, clip_min, clip_max, default_value,
-weights, weight_reduction)` -/
+weights, weight_reduction)`; `values` / `weights` are what `np.asarray` makes of an array or a
+Python list (fix e275cfc). One weight per value is assumed: a weight vector of another length is an
+`IndexError` in `weights[non_default_idx]`, outside C18's quantifier (`prepare` zips). -/
 def computeKeypoints (values : List Rat) (k : Nat) (mode : Mode) (clipMin clipMax dflt : Option Rat)
     (weights : Option (List Rat)) (red : Reduce) (dirs : List Int) : Except Err (List Rat) :=
   let vw := prepare values weights clipMin clipMax dflt
@@ -215,11 +217,120 @@ def plateauHit (values : List Rat) (k : Nat) (clipMin clipMax dflt : Option Rat)
   -- only interior quantiles matter: the first and last index are forced
   ((quantileGrid k).drop 1).dropLast.any fun q => (wq.zip (wq.drop 1)).any fun p => p.1 = p.2 && p.1 = q
 
-/-- `compute_label_keypoints` on numeric labels with a string `output_initialization` -/
-def labelKeypoints (labels : List Rat) (k : Nat) (mode : Mode) (logits : Bool)
-    (outMin outMax : Option Rat) (weights : Option (List Rat)) (red : Reduce) (dirs : List Int) :
-    Except Err (List Rat) :=
-  if logits then .ok (linspace (-2) 2 k)
-  else computeKeypoints labels k mode outMin outMax none weights red dirs
+/-! ## the feature / label keypoint helpers (premade_lib.py:1496-1588)
+
+`compute_feature_keypoints`, `set_feature_keypoints`, `compute_label_keypoints`,
+`set_label_keypoints`.  Feature names are natural numbers (dict keys / config names compared with
+`==`); a Python dict is an association list in insertion order. -/
+
+/-- `pwl_calibration_input_keypoints` / `output_initialization`: `isinstance(…, str)` → a keypoint
+mode, otherwise user-specified keypoint values (list, tuple or array: passed through untouched) -/
+inductive KpSpec where
+  | mode (m : Mode)
+  | given (kps : List Rat)
+  deriving DecidableEq, Repr
+
+/-- the fields of `configs.FeatureConfig` the helpers read, with the constructor's defaults
+(`num_buckets` `None` and `0` are both falsy: one value `0`) -/
+structure FeatureCfg where
+  name : Nat
+  numBuckets : Nat := 0
+  spec : KpSpec := .mode .quantiles
+  numKeypoints : Nat := 10
+  clipMin : Option Rat := none
+  clipMax : Option Rat := none
+  dflt : Option Rat := none
+  deriving DecidableEq, Repr
+
+/-- `_feature_config_by_name(feature_configs, name, add_if_missing=False)`: the FIRST config of
+that name, else a fresh default `FeatureConfig(name)` -/
+def featureConfigByName (cfgs : List FeatureCfg) (name : Nat) : FeatureCfg :=
+  match cfgs.find? (fun c => c.name = name) with
+  | some c => c
+  | none => { name := name }
+
+/-- the body of the loop of `compute_feature_keypoints` for one feature: `none` = skipped
+(categorical, `if feature_config.num_buckets: continue`) -/
+def featureKeypoints1 (cfg : FeatureCfg) (values : List Rat) (weights : Option (List Rat)) (red : Reduce)
+    (dirs : List Int) : Except Err (Option (List Rat)) :=
+  if cfg.numBuckets ≠ 0 then .ok none
+  else match cfg.spec with
+    | .mode m =>
+      match computeKeypoints values cfg.numKeypoints m cfg.clipMin cfg.clipMax cfg.dflt weights red dirs with
+      | .ok kps => .ok (some kps)
+      | .error e => .error e
+    | .given kps => .ok (some kps)
+
+/-- `compute_feature_keypoints(feature_configs, features, weights, weight_reduction)`: the SAME
+weight vector for every feature; the first exception leaves the loop. `dirs` = tie directions per
+feature (in the order of `features`). -/
+def computeFeatureKeypoints (cfgs : List FeatureCfg) (weights : Option (List Rat)) (red : Reduce) :
+    List (Nat × List Rat) → List (List Int) → Except Err (List (Nat × List Rat))
+  | [], _ => .ok []
+  | (name, values) :: rest, dirs =>
+    match featureKeypoints1 (featureConfigByName cfgs name) values weights red (dirs.headD []) with
+    | .error e => .error e
+    | .ok r =>
+      match computeFeatureKeypoints cfgs weights red rest dirs.tail with
+      | .error e => .error e
+      | .ok out => .ok (match r with
+        | some kps => (name, kps) :: out
+        | none => out)
+
+/-- overwrite `pwl_calibration_input_keypoints` of the first config called `name` -/
+def setFirst (name : Nat) (kps : List Rat) : List FeatureCfg → List FeatureCfg
+  | [] => []
+  | c :: cs => if c.name = name then { c with spec := .given kps } :: cs else c :: setFirst name kps cs
+
+/-- one step of `set_feature_keypoints`: `_feature_config_by_name(…, add_if_missing)` then the
+assignment (on a discarded temporary config when the name is missing and not added) -/
+def setOne (add : Bool) (cfgs : List FeatureCfg) (p : Nat × List Rat) : List FeatureCfg :=
+  if cfgs.any (fun c => c.name = p.1) then setFirst p.1 p.2 cfgs
+  else if add then cfgs ++ [{ name := p.1, spec := .given p.2 }]
+  else cfgs
+
+/-- `set_feature_keypoints(feature_configs, feature_keypoints, add_missing_feature_configs)` -/
+def setFeatureKeypoints (cfgs : List FeatureCfg) (kps : List (Nat × List Rat)) (add : Bool) : List FeatureCfg :=
+  kps.foldl (setOne add) cfgs
+
+/-- the label array as `compute_label_keypoints` sees it: a numeric dtype, or anything else
+(strings, bytes, objects, booleans: `np.issubdtype(dtype, np.number)` is false) with the labels
+coded by class so that `len(set(labels))` = number of distinct codes -/
+inductive Labels where
+  | numeric (l : List Rat)
+  | classes (l : List Nat)
+  deriving DecidableEq, Repr
+
+/-- the fields of the model config read by `compute_label_keypoints` -/
+structure LabelCfg where
+  spec : KpSpec
+  numKeypoints : Nat
+  outMin : Option Rat := none
+  outMax : Option Rat := none
+  deriving DecidableEq, Repr
+
+/-- `np.arange(n)` -/
+def arange (n : Nat) : List Rat := (List.range n).map fun (i : Nat) => (i : Rat)
+
+/-- `len(set(labels))` -/
+def numClasses (l : List Nat) : Nat := l.eraseDups.length
+
+/-- `compute_label_keypoints(model_config, labels, logits_output, weights, weight_reduction)`:
+non-numeric labels become `arange(n_classes)` and DROP the weights; a string
+`output_initialization` with logits output gives `linspace(-2, 2, k)` whatever the labels; user
+keypoints are passed through. -/
+def computeLabelKeypoints (cfg : LabelCfg) (labels : Labels) (logits : Bool) (weights : Option (List Rat))
+    (red : Reduce) (dirs : List Int) : Except Err (List Rat) :=
+  let vw : List Rat × Option (List Rat) := match labels with
+    | .numeric l => (l, weights)
+    | .classes l => (arange (numClasses l), none)
+  match cfg.spec with
+  | .mode m =>
+    if logits then .ok (linspace (-2) 2 cfg.numKeypoints)
+    else computeKeypoints vw.1 cfg.numKeypoints m cfg.outMin cfg.outMax none vw.2 red dirs
+  | .given kps => .ok kps
+
+/-- `set_label_keypoints(model_config, label_keypoints)` -/
+def setLabelKeypoints (cfg : LabelCfg) (kps : List Rat) : LabelCfg := { cfg with spec := .given kps }
 
 end Tfl.Keypoints
